@@ -18,3 +18,26 @@ def run(job, ctx):
 
 def replay_case(fail, ctx):
     shape.replay(PID, fail, ctx)
+
+
+# ---- mechanism hook: ChineseMergedExtractor.add_mod re-spans entities with broken arithmetic (known finding);
+# the hook records whether add_mod changed any (start, length) during the current parse so that a zh-cn span
+# failure is attributed to it only when it actually happened in that call.
+ZH_ADD_MOD = {'changed': False, 'calls': 0}
+
+
+def install_hooks(ctx):
+    from recognizers_date_time.date_time.chinese.merged_extractor import ChineseMergedExtractor
+    orig = ChineseMergedExtractor.add_mod
+    if getattr(orig, '_rt', False):
+        return
+
+    def add_mod(self, extract_results, source):
+        before = [(e.start, e.length) for e in extract_results]
+        r = orig(self, extract_results, source)
+        ZH_ADD_MOD['calls'] += 1
+        if [(e.start, e.length) for e in extract_results] != before:
+            ZH_ADD_MOD['changed'] = True
+        return r
+    add_mod._rt = True
+    ChineseMergedExtractor.add_mod = add_mod
